@@ -257,6 +257,24 @@ func runC07(c *Ctx) {
 				}
 				continue
 			}
+			if r.Chance(1, 14) { // a transfer that is paused and resumed: chunks before and after belong to the one file
+				fid := uint32(20 + r.Intn(3))
+				c.Count("paused-transfer")
+				w.line(c, fmt.Sprintf("dlopen %s %d %s 64", id, fid, hx([]byte(gen.Pick(r, []string{"paused.bin", "C:\\tmp\\p.dat", "dir/p2.bin"})))))
+				w.line(c, fmt.Sprintf("dlwrite %s %d %s", id, fid, hx(r.Bytes(1+r.Intn(9)))))
+				w.line(c, fmt.Sprintf("tctl %s 1 %d 1 0", id, fid)) // stop, found
+				if r.Bool() {
+					w.line(c, fmt.Sprintf("tctl %s 0 %d 10 2", id, fid)) // list: stopped
+				}
+				if r.Chance(2, 3) {
+					w.line(c, fmt.Sprintf("tctl %s 2 %d 1 0", id, fid)) // resume, found
+				}
+				for k := 0; k < 1+r.Intn(2); k++ {
+					w.line(c, fmt.Sprintf("dlwrite %s %d %s", id, fid, hx(r.Bytes(1+r.Intn(9)))))
+				}
+				w.line(c, fmt.Sprintf("dlclose %s %d 0", id, fid))
+				continue
+			}
 			switch k := r.Intn(20); {
 			case k < 5:
 				fid := uint32(1 + r.Intn(5))
